@@ -106,12 +106,17 @@ CLAIMS = {
         "design_ref": "DESIGN.md section 3, C15",
     },
     "C18": {
-        "technique": "bounded Kani harnesses (closed universe, argument lists up to length 2/3) on the real from_args code",
-        "text": "Bounded: for argument lists of length <= 2 (quick) / 3 (thorough) over a closed universe of names and "
-                "values, each from_args returns the first recognised value for its own argument name and the documented "
-                "default otherwise; from_name_and_args dispatches to the documented formatter.",
-        "note": "Bounded stand-in, not counted as proved. Not covered: whitespace handling (parse_formatter_args), "
-                "ICU4X output, the concurrent formatter cache.",
+        "technique": "Verus proof of the generic helper (extracted, one rewrite) + bounded Kani harnesses (closed universe, argument lists up to length 2/3) on the real from_args code",
+        "text": "Proved (Verus, for every argument type, option type, recogniser and list length): from_args_helper returns "
+                "the value the recogniser gives for the first argument that carries the option's name and is recognised, "
+                "and the default when there is no list, no such argument or only unrecognised values. Bounded (Kani): for "
+                "argument lists of length <= 2 (quick) / 3 (thorough) over a closed universe of names and values, each "
+                "from_args returns the first recognised value for its own argument name and the documented default "
+                "otherwise; from_name_and_args dispatches to the documented formatter.",
+        "note": "The Kani part is a bounded stand-in, not counted as proved; the helper proof uses rule K1 (`if c { continue; } "
+                "rest` -> `if c { } else { rest }`) and assumes the PartialEq impls obey vstd's eq model. Not covered: the "
+                "macro-generated recogniser closures beyond the bounded harnesses, whitespace handling "
+                "(parse_formatter_args), ICU4X output, the concurrent formatter cache.",
         "design_ref": "DESIGN.md section 3, C18",
     },
 }
